@@ -1187,12 +1187,12 @@ pub fn generate(repo: &PathBuf) -> Result<String, String> {
         for (k, v) in lit.iter_mut() {
             let nv = match &*v {
                 Src::Const(c) if c == "None" => Src::Const("None".into()),
-                Src::Const(c) if c == "current_node_clone.get_antnode_port()" => Src::Var(vec!["#listenport".into()]),
+                Src::Const(c) if c == "current_node_clone.get_antnode_port()" => Src::Var(vec!["~".into(), "listenport".into()]),
                 Src::Const(c) if c == "false" || c == "true" || c.starts_with("ServiceStatus::") => Src::Const(c.clone()),
                 Src::Const(c) => return Err(format!("{what}: field `{k}` is `{c}`")),
                 Src::Var(p) if p.len() == 2 && p[0] == "current_node_clone" => Src::Var(vec![p[1].clone()]),
-                Src::Var(p) if p.len() == 2 && p[0] == "node_registry" && p[1] == "environment_variables" => Src::Var(vec!["#regenv".into()]),
-                Src::Var(p) if p.len() == 1 => Src::Var(vec!["#new".into(), p[0].clone()]),
+                Src::Var(p) if p.len() == 2 && p[0] == "node_registry" && p[1] == "environment_variables" => Src::Var(vec!["~".into(), "regenv".into()]),
+                Src::Var(p) if p.len() == 1 => Src::Var(vec!["~".into(), "new".into(), p[0].clone()]),
                 Src::Var(p) => return Err(format!("{what}: field `{k}` reads `{}`", p.join("."))),
                 Src::Folded(..) => return Err(format!("{what}: folded field `{k}`")),
             };
@@ -1245,10 +1245,10 @@ pub fn generate(repo: &PathBuf) -> Result<String, String> {
     s.push_str(&lean_one("addInstallLevel", "second argument of `service_control.install(..)` in `add_node` (true = user level)", &add_install_level));
     s.push_str(&lean_one("upgradeUninstallLevel", "`ServiceManager::upgrade`: level handed to `uninstall` (a registry field, through `NodeService::is_user_mode`)", &upgrade_uninstall_level));
     s.push_str(&lean_one("upgradeInstallLevel", "`ServiceManager::upgrade`: level handed to `install`", &upgrade_install_level));
-    s.push_str(&lean_assoc("restartRetainLiteral", "`InstallNodeServiceCtxBuilder { .. }` of `rpc::restart_node_service`, peer id retained: builder field ↦ registry field of the restarted entry; `#listenport` = `get_antnode_port()` (port of the recorded listen address), `#regenv` = registry-wide environment", &retain_lit));
+    s.push_str(&lean_assoc("restartRetainLiteral", "`InstallNodeServiceCtxBuilder { .. }` of `rpc::restart_node_service`, peer id retained: builder field ↦ registry field of the restarted entry; `~.listenport` = `get_antnode_port()` (port of the recorded listen address), `~.regenv` = registry-wide environment", &retain_lit));
     s.push_str(&lean_one("restartRetainUninstallLevel", "`restart_node_service` (retain): level handed to `uninstall`", &retain_uninstall_level));
     s.push_str(&lean_one("restartRetainInstallLevel", "`restart_node_service` (retain): level handed to `install`", &retain_install_level));
-    s.push_str(&lean_assoc("restartReplaceLiteral", "`InstallNodeServiceCtxBuilder { .. }` of `rpc::restart_node_service`, replacement service: `#new.x` = local x derived from the new service name", &replace_lit));
+    s.push_str(&lean_assoc("restartReplaceLiteral", "`InstallNodeServiceCtxBuilder { .. }` of `rpc::restart_node_service`, replacement service: `~.new.x` = local x derived from the new service name", &replace_lit));
     s.push_str(&lean_assoc("restartReplaceData", "`NodeServiceData { .. }` recorded for the replacement service", &replace_data));
     s.push_str(&lean_one("restartReplaceInstallLevel", "`restart_node_service` (replacement): level handed to `install`", &replace_install_level));
     s.push_str(&lean_pairs("evmDisplay", "`Display for evmlib::Network`: variant ↦ printed subcommand word", &evm_display));
